@@ -488,3 +488,133 @@ func rootParam(b ssa.Value) string {
 	}
 	return ""
 }
+
+// ---- constants by construction (mode flags in option structs) ----
+
+// constOfValue resolves v to a constant when it is one by construction: a constant, a conversion of one, or a field of
+// a composite-literal local (a struct built in place and only read afterwards) that is assigned one constant - the
+// zero value when the literal does not mention the field.
+func constOfValue(v ssa.Value, depth int) (constant.Value, bool) {
+	if depth > 6 || v == nil {
+		return nil, false
+	}
+	switch x := v.(type) {
+	case *ssa.Const:
+		if x.Value == nil {
+			return nil, false
+		}
+		return x.Value, true
+	case *ssa.Convert:
+		return constOfValue(x.X, depth+1)
+	case *ssa.ChangeType:
+		return constOfValue(x.X, depth+1)
+	case *ssa.Field:
+		if u, ok := x.X.(*ssa.UnOp); ok && u.Op == token.MUL {
+			if al, ok := u.X.(*ssa.Alloc); ok {
+				return literalFieldConst(al, x.Field)
+			}
+		}
+	case *ssa.UnOp:
+		if x.Op == token.MUL {
+			if fa, ok := x.X.(*ssa.FieldAddr); ok {
+				if al, ok := fa.X.(*ssa.Alloc); ok {
+					return literalFieldConst(al, fa.Field)
+				}
+			}
+		}
+	}
+	return nil, false
+}
+
+func literalFieldConst(al *ssa.Alloc, field int) (constant.Value, bool) {
+	if al.Referrers() == nil {
+		return nil, false
+	}
+	st, ok := al.Type().Underlying().(*types.Pointer).Elem().Underlying().(*types.Struct)
+	if !ok || field >= st.NumFields() {
+		return nil, false
+	}
+	var val constant.Value
+	n := 0
+	for _, ref := range *al.Referrers() {
+		switch r := ref.(type) {
+		case *ssa.FieldAddr:
+			if r.Referrers() == nil {
+				continue
+			}
+			for _, r2 := range *r.Referrers() {
+				switch y := r2.(type) {
+				case *ssa.Store:
+					if y.Addr != ssa.Value(r) {
+						return nil, false // the field's address is stored somewhere
+					}
+					if r.Field == field {
+						c, isC := y.Val.(*ssa.Const)
+						if !isC || c.Value == nil {
+							return nil, false
+						}
+						val = c.Value
+						n++
+					}
+				case *ssa.UnOp:
+				case *ssa.DebugRef:
+				default:
+					return nil, false
+				}
+			}
+		case *ssa.UnOp:
+			if r.Op != token.MUL {
+				return nil, false
+			}
+		case *ssa.DebugRef:
+		default:
+			return nil, false // the struct's address escapes
+		}
+	}
+	switch n {
+	case 1:
+		return val, true
+	case 0:
+		b, isBasic := st.Field(field).Type().Underlying().(*types.Basic)
+		if !isBasic {
+			return nil, false
+		}
+		switch {
+		case b.Info()&types.IsInteger != 0:
+			return constant.MakeInt64(0), true
+		case b.Info()&types.IsBoolean != 0:
+			return constant.MakeBool(false), true
+		case b.Info()&types.IsString != 0:
+			return constant.MakeString(""), true
+		}
+	}
+	return nil, false
+}
+
+// ConstEval decides comparisons between constants-by-construction (and a bare boolean one).
+func ConstEval(base ssa.Value) (bool, bool) {
+	if bo, ok := base.(*ssa.BinOp); ok {
+		switch bo.Op {
+		case token.EQL, token.NEQ, token.LSS, token.LEQ, token.GTR, token.GEQ:
+			x, okx := constOfValue(bo.X, 0)
+			y, oky := constOfValue(bo.Y, 0)
+			if okx && oky && x.Kind() == y.Kind() && x.Kind() != constant.Unknown {
+				return constant.Compare(x, bo.Op, y), true
+			}
+		}
+		return false, false
+	}
+	if c, ok := constOfValue(base, 0); ok && c.Kind() == constant.Bool {
+		return constant.BoolVal(c), true
+	}
+	return false, false
+}
+
+// EvalAlong translates an evaluator of the chain's root function into the function the chain leads to.
+func EvalAlong(eval CondFn, chain []*Site) CondFn {
+	cur := eval
+	for _, c := range chain {
+		cur = liftEval(cur, c.Static, c.Instr)
+	}
+	return cur
+}
